@@ -9,10 +9,10 @@ CONSTANTS
   PlumbLen = 0
   FragLen = 5
   FragLen2 = 4
-  FragLenSJ = 4
+  FragLenSJ = 1
   FragAll = TRUE
-  FragAlpha = "frag"
+  FragAlpha = "full"
   WithPlumb = FALSE
   WithFrag = TRUE
-INVARIANTS TypeOK DesignOK MachineOK Emitted
+INVARIANTS TypeOK DesignOK MachineOK
 VIEW View
